@@ -22,7 +22,7 @@ FEATURES = ["pwd", "ip", "words", "asn"]
 def options(rng):
     """Option values shared by every anonymizer built for one case."""
     return {
-        "salt": rng.choice(["saltForTest", "x", "Q9", "zü", ""]),
+        "salt": rng.choice(["saltForTest", "x", "Q9", "zü", "", "_salt", "#9", "%x", "+plus"]),
         "words": rng.sample(WORDS, rng.randint(1, 4)),
         "asns": rng.sample(ASNS, rng.randint(1, 4)),
         "reserved": rng.choice([None, None, ["MyZurichBox"]]),
